@@ -160,6 +160,9 @@ def binop(op, a: Val, b: Val, node=None) -> Val:
         return str_format(a, b, node)
     # lists
     if isinstance(ta, T.List) or isinstance(tb, T.List) or (a.is_py and isinstance(a.py, list)) or (b.is_py and isinstance(b.py, list)):
+        if opc is ast.Add and a.is_py and b.is_py and isinstance(a.py, list) and isinstance(b.py, list):
+            r_ = list(a.py) + list(b.py)  # two python-level lists (of values): concatenation at python level
+            return Val(PYOBJ, None, r_, True) if (_has_val(r_) or not r_) else Val.const(r_)
         if opc is ast.Add:
             t = ta if isinstance(ta, T.List) else tb
             if not isinstance(t, T.List):
@@ -194,9 +197,15 @@ def binop(op, a: Val, b: Val, node=None) -> Val:
         yr = z3.ToReal(y) if t == T.INT else y
         return Val(T.REAL, xr / yr)
     if opc in (ast.FloorDiv, ast.Mod):
-        if t != T.INT or not (is_const(b) and b.py > 0):
-            raise Unsupported("// and % need an int dividend and a positive constant divisor", node)
-        return Val(T.INT, (x / y) if opc is ast.FloorDiv else (x % y))
+        if t != T.INT or not (is_const(b) and isinstance(b.py, int) and b.py != 0):
+            raise Unsupported("// and % need an int dividend and a non-zero constant int divisor", node)
+        if b.py > 0:
+            return Val(T.INT, (x / y) if opc is ast.FloorDiv else (x % y))
+        # negative constant divisor c = -m: Python's floor division  x // c == floor(x / c) == (-x) div m  (SMT div by a positive
+        # m is the floor), and  x % c == x - c * (x // c)  (result in (c, 0])
+        m = z3.IntVal(-b.py)
+        q = (-x) / m
+        return Val(T.INT, q if opc is ast.FloorDiv else x - y * q)
     if opc is ast.LShift and t == T.INT and is_const(b) and b.py >= 0:
         return Val(T.INT, x * (2 ** b.py))
     if opc is ast.Pow and is_const(b) and isinstance(b.py, int) and b.py >= 0:
@@ -297,6 +306,15 @@ def equal(a: Val, b: Val):
         return a.py == b.py
     if a.is_py and b.is_py and isinstance(a.ty, T.Enum) and isinstance(b.ty, T.Enum):
         return a.py == b.py
+    if a.is_py and b.is_py and isinstance(a.py, (tuple, list)) and isinstance(b.py, (tuple, list)) and (_has_val(a.py) or _has_val(b.py)):
+        # python-level sequences of values: component-wise (with the usual numeric promotion), never a tuple == a list
+        if isinstance(a.py, tuple) != isinstance(b.py, tuple) or len(a.py) != len(b.py):
+            return False
+        parts = [equal(x if isinstance(x, Val) else Val.const(x), y if isinstance(y, Val) else Val.const(y)) for x, y in zip(a.py, b.py)]
+        if any(p_ is False for p_ in parts):
+            return False
+        parts = [p_ for p_ in parts if p_ is not True]
+        return (z3.And(*parts) if len(parts) > 1 else parts[0]) if parts else True
     if a.ty is PYOBJ or b.ty is PYOBJ:
         if a.is_py and b.is_py and not _has_val(a.py) and not _has_val(b.py):
             return a.py == b.py
@@ -325,6 +343,19 @@ def equal(a: Val, b: Val):
             return False
     if isinstance(tb, T.Union):
         return equal(b, a)
+    # tuples of the same arity whose components are comparable (e.g. Tuple(REAL..) vs Tuple(INT..)): component-wise
+    if isinstance(ta, T.Tuple) and isinstance(tb, T.Tuple) and len(ta.items) == len(tb.items):
+        def comps(v, t):
+            if v.is_py:
+                return [x if isinstance(x, Val) else Val.const(x) for x in v.py]
+            sv = t.sort()
+            return [Val(it, sv.accessor(0, i)(v.term)) for i, it in enumerate(t.items)]
+
+        parts = [equal(x, y) for x, y in zip(comps(a, ta), comps(b, tb))]
+        if any(p_ is False for p_ in parts):
+            return False
+        parts = [p_ for p_ in parts if p_ is not True]
+        return z3.And(*parts) if parts else True
     # values of unrelated types are never equal in Python (no numeric/str crossover here)
     if {ta, tb} <= {T.INT, T.REAL, T.BOOL}:
         x, y, _ = num_join(a, b)
@@ -448,6 +479,9 @@ def is_(a: Val, b: Val, node=None):
         return a.py is b.py
     if isinstance(a.ty, T.Enum) and a.ty == b.ty:
         return lift(a) == lift(b)  # enum members are singletons: identity is equality
+    for x, y in ((a, b), (b, a)):
+        if isinstance(x.ty, T.Enum) and not x.is_py and issubclass(x.ty.pycls(), int) and is_const(y) and isinstance(y.py, x.ty.pycls()):
+            return lift(coerce(x, T.INT)) == int(y.py)  # an IntEnum member written as a constant is a plain int here
     if isinstance(a.ty, T.Ref) and isinstance(b.ty, T.Ref):
         return a.term == b.term
     if a.ty == T.BOOL and b.ty == T.BOOL:
